@@ -39,7 +39,7 @@ theorem soundDir_exec (D : Defs) (op : OpInst) (fmt : List Dir) (K : List Cls)
       · cases d with
         | unitAttr name ip u =>
           simp only [wfD, Bool.and_eq_true] at hwf
-          have := hwf.1.1.1
+          have := hwf.1.1
           simp [okTop] at this
         | attrDict w res exp => exact hdict _ (List.mem_cons_self ..) w res exp rfl
         | _ => trivial
@@ -48,7 +48,7 @@ theorem soundDir_exec (D : Defs) (op : OpInst) (fmt : List Dir) (K : List Cls)
       intro d hd
       have hwf0 := hwf
       simp only [wfD, Bool.and_eq_true] at hwf
-      obtain ⟨⟨⟨⟨⟨⟨⟨⟨⟨⟨hfirst, _⟩, _⟩, _⟩, _⟩, hinge⟩, _⟩, _⟩, _⟩, _⟩, _⟩ := hwf
+      obtain ⟨⟨⟨⟨⟨⟨⟨⟨⟨hfirst, _⟩, _⟩, _⟩, _⟩, hinge⟩, _⟩, _⟩, _⟩, _⟩ := hwf
       obtain ⟨_, _, hcons, hv4⟩ := hv
       simp only [execS, List.mem_append] at hd
       rcases hd with hd | hd
